@@ -3,8 +3,11 @@
   Disciplined clients on the machine of MRB.Conc: the producer writes `inp q` at position `q` before moving past it, the
   worker applies `f` exactly once to each item before moving past it, the consumer logs what it reads before moving past
   it; publications and (possibly stale) loads interleave arbitrarily. Slice operations are sequences of one-item steps
-  without publication in between, so every slice/item mix is covered. `reset_index` and detached moves of the data stages
-  are not part of this content theorem (they are covered for race freedom by C03 and sequentially by C01/C11/C12).
+  without publication in between, so every slice/item mix is covered. Detached moves are part of it for the two ends of
+  the pipeline: the consumer may go back over items it has read but not released (its log is cut back accordingly: it
+  re-reads the same values), the producer may withdraw unpublished items and write them again. `reset_index` and a detached
+  *worker* going back (which would apply `f` twice) are not part of this content theorem (they are covered for race freedom
+  by C03 and sequentially by C01/C11/C12).
 -/
 import MRB.Conc.Data
 
@@ -28,9 +31,20 @@ theorem C02_buffer_holds_the_rest {L : Nat} {hasW : Bool} {inp f : Nat → Nat} 
     (hasW = true → ∀ q, d.c.tW.pos ≤ q → q < d.c.tP.pos → d.mem (q % L) = inp q) := by
   have h := dreach_inv hL r
   obtain ⟨pL, pW⟩ := r.machine.params
+  have bC := (reach_inv hL r.machine).1.j1b .C
+  simp only [St.thr, St.hist] at bC
   constructor
-  · intro q h1 h2; have := h.done q h1 (by rw [pW]; exact h2); rw [pL, pW] at this; exact this
+  · intro q h1 h2; have := h.done q (by omega) (by rw [pW]; exact h2); rw [pL, pW] at this; exact this
   · intro hW q h1 h2; have := h.raw (by rw [pW]; exact hW) q h1 h2; rw [pL] at this; exact this
+
+/-- Items the consumer has read but not yet released (a detached consumer between `advance` and `sync`) are still intact
+    in the buffer: from the consumer's *published* position on, every slot up to the next stage holds its processed item,
+    whatever the producer did meanwhile. This is what makes `Detached::go_back` safe: re-reading yields the same values. -/
+theorem C02_unreleased_items_intact {L : Nat} {hasW : Bool} {inp f : Nat → Nat} (hL : 1 ≤ L) {d : DSt} (r : DReach L hasW inp f d) :
+    ∀ q, lastVal d.c.hC ≤ q → q < (if hasW then d.c.tW.pos else d.c.tP.pos) → d.mem (q % L) = (if hasW then f (inp q) else inp q) := by
+  have h := dreach_inv hL r
+  obtain ⟨pL, pW⟩ := r.machine.params
+  intro q h1 h2; have := h.done q h1 (by rw [pW]; exact h2); rw [pL, pW] at this; exact this
 
 /-- The stages never overtake each other on their true positions (concurrent form of C04), whatever they have read. -/
 theorem C02_true_positions_ordered {L : Nat} {hasW : Bool} (hL : 1 ≤ L) {s : St} (r : Reach L hasW s) :
@@ -59,5 +73,23 @@ example : ∃ d, DReach 2 true (fun q => 10 + q) (fun x => x * 2) d ∧ d.log = 
   have r7 := DReach.step r6 (DStep.refresh _ .C ⟨1, _, true⟩ (List.mem_append_right _ (List.mem_cons_self ..)) (by decide) (by decide))
   have r8 := DReach.step r7 (DStep.consume _ (by decide))
   exact ⟨_, r8, by decide⟩
+
+/-- Non-vacuity of the detached moves: two stages, the producer writes two items, withdraws one, writes it again and
+    publishes; the consumer reads both, goes back over one, reads it again — its log is the input prefix throughout. -/
+example : ∃ d, DReach 4 false (fun q => 10 + q) id d ∧ d.log = [10, 11] ∧ d.c.tC.pos = 2 ∧ lastVal d.c.hC = 0 := by
+  let inp : Nat → Nat := fun q => 10 + q
+  have r0 : DReach 4 false inp id ⟨init 4 false, fun _ => 0, []⟩ := DReach.init _
+  have r1 := DReach.step r0 (DStep.refresh _ .P ⟨0, VC.zero, true⟩ (List.mem_cons_self ..) (Nat.le_refl _) (by decide))
+  have r2 := DReach.step r1 (DStep.produce _ (by decide))
+  have r3 := DReach.step r2 (DStep.produce _ (by decide))
+  have r4 := DReach.step r3 (DStep.pback _ 1 (by decide))
+  have r5 := DReach.step r4 (DStep.produce _ (by decide))
+  have r6 := DReach.step r5 (DStep.publish _ .P (by decide))
+  have r7 := DReach.step r6 (DStep.refresh _ .C ⟨2, _, true⟩ (List.mem_append_right _ (List.mem_cons_self ..)) (by decide) (by decide))
+  have r8 := DReach.step r7 (DStep.consume _ (by decide))
+  have r9 := DReach.step r8 (DStep.consume _ (by decide))
+  have r10 := DReach.step r9 (DStep.cback _ 1 (by decide))
+  have r11 := DReach.step r10 (DStep.consume _ (by decide))
+  exact ⟨_, r11, by decide, by decide, by decide⟩
 
 end MRB.Props.C02
